@@ -61,9 +61,37 @@ def gen_case(rng, idx, tier):
     U = gen.kv(rng, pmax=4, nintmax=4)
     nt = rng.choice(["frac", "frac", "float", "int"]) if all(k.denominator == 1 for k in U) else rng.choice(["frac", "frac", "float"])
     p, n = ref.wellformed(U)
-    return {"kind": "affine", "U": lib.enc(U), "numtype": nt, "a": lib.enc(F(rng.randint(-20, 20), rng.choice([1, 2, 3, 7]))),
-            "s": lib.enc(F(rng.randint(1, 12), rng.randint(1, 12))), "P": lib.enc(gen.points(rng, n, rng.choice([0, 2]))),
+    a = F(rng.randint(-20, 20), rng.choice([1, 2, 3, 7]))
+    s = F(rng.randint(1, 12), rng.randint(1, 12))
+    if nt == "frac" and rng.random() < 0.25:  # exact class only: the int class is probed with float parameters
+        # "all shifts and positive scales": exact arithmetic has no conditioning, so shifts of 1e5..1e12 (knot spacing
+        # 1e-6..1e-13 of the knot values) and scales up to 1e6 are in the domain. Small scales are not: they bring
+        # distinct knots closer than the library's 1e-6 merge threshold (separation bound of DESIGN section 4)
+        r2 = rng.random()
+        if r2 < 0.5:
+            a = rng.choice([-1, 1]) * F(10) ** rng.choice([5, 7, 9, 12]) + a
+        elif r2 < 0.8:
+            s = s * F(10) ** rng.choice([3, 4, 6])
+        else:
+            # a scale that brings distinct knots closer than the library's absolute knot-identity thresholds (1e-6 in
+            # `knots`, 1e-9 in `mult`): inside "all positive scales"; see known_findings.json
+            s = s * F(10) ** rng.choice([-7, -9, -11])
+    return {"kind": "affine", "U": lib.enc(U), "numtype": nt, "a": lib.enc(a),
+            "s": lib.enc(s), "P": lib.enc(gen.points(rng, n, rng.choice([0, 2]))),
             "W": lib.enc(gen.weights(rng, n, 9) if rng.random() < 0.3 else None), "op": rng.choice(["shift", "scale", "both", "normalize", "normalize"])}
+
+
+class _Remap:
+    """reports every failed comparison of a case under one mechanism key (the original key goes into the message)"""
+
+    def __init__(self, ctx, key):
+        self._ctx, self._key = ctx, key
+
+    def check(self, cond, key, msg, **kw):
+        return self._ctx.check(cond, self._key, f"{msg} [{key}]", **kw)
+
+    def __getattr__(self, name):
+        return getattr(self._ctx, name)
 
 
 def check_generated(ctx, kv, kind, p, npts, cls, spacing=None):
@@ -208,6 +236,12 @@ def run_case(case, ctx):
     else:
         o = call(kv.normalize)
         want = [(k - Uq[0]) / (Uq[-1] - Uq[0]) for k in Uq]
+    wd = ref.distinct(want)
+    if exact and min(y - x for x, y in zip(wd, wd[1:])) < F(1, 10**6):
+        # every failure of such a case is one mechanism: knots that are distinct rationals are identified by the absolute
+        # tolerances of ImmutableKnotVector (knots: 1e-6, mult: 1e-9)
+        ctx.count("small_scale_cases")
+        ctx = _Remap(ctx, "affine:small-scale:knots-merged")
     if not ctx.check(o.ok, f"affine:raises:{op}:{o.exc_name}", f"{op} raised {o.brief()}"):
         return
     got = list(kv)
@@ -228,7 +262,10 @@ def run_case(case, ctx):
     f0, f1 = Function(list(Un)), Function(list(got))
     P, W = lib.dec(case["P"]), lib.dec(case["W"])
     c0 = lib.mk_curve(U, P, W, nt)
-    c1 = Curve(list(got), lib.mk_points(P, nt), None if W is None else lib.nums(W, nt))
+    o1 = call(Curve, list(got), lib.mk_points(P, nt), None if W is None else lib.nums(W, nt))
+    if not ctx.check(o1.ok, f"affine:curve-on-mapped-vector:{op}", f"a curve on the mapped vector is rejected: {o1.brief()}"):
+        return
+    c1 = o1.value
     ks = ref.distinct(Uq)
     probes = []
     for x0, x1 in zip(ks, ks[1:]):
